@@ -237,6 +237,58 @@ def run(report, p):
         resets = [n for n in g.nodes if n.kind == "stmt" and isinstance(n.ast, ast.Assign) and "_ignore_list" in norm(n.ast.targets[0]) and isinstance(n.ast.value, ast.List) and not n.ast.value.elts]
         ok = ok and len(resets) == 1 and all(g.dominates(resets[0], x) for grp in groups.values() for x in grp)
     r4.check(ok, sp, sp.node, "set_patterns does not apply [previous or defaults] -> [-i list] -> [-ii file] in that order after a reset", construct="set_patterns order")
+    # which base list is taken: evaluated over the three cases of the 'existing patterns' argument
+    from sa.absint import UNKNOWN, Evaluator, Obj, Val
+
+    class _NonEmpty(Obj):
+        pass
+
+    class _SP(Evaluator):
+        def __init__(self):
+            self.taken = []
+            super().__init__(self._hook, sp.qual)
+
+        def _hook(self, e, env):
+            if isinstance(e, ast.Call) and "default_ignore_list" in norm(e.func):
+                return Val("<defaults>")
+            return None
+
+        def step(self, st, env):
+            if isinstance(st, ast.Expr) and isinstance(st.value, ast.Call) and isinstance(st.value.func, ast.Attribute) and st.value.func.attr.startswith("_append_patterns") and st.value.args:
+                a = st.value.args[0]
+                if isinstance(a, ast.BoolOp) and isinstance(a.op, ast.Or):
+                    v = UNKNOWN
+                    for x in a.values:
+                        v = self.eval(x, env)
+                        if v is UNKNOWN or v:
+                            break
+                else:
+                    v = self.eval(a, env)
+                env.setdefault("__taken", [])
+                env["__taken"] = env["__taken"] + [v]
+                return [(env, None)]
+            return super().step(st, env)
+
+    cases = [("a non-empty list", _NonEmpty(), False), ("an empty list", [], True), ("None", None, True)]
+    okd, whyd = True, ""
+    for desc, val, want_defaults in cases:
+        ev = _SP()
+        try:
+            outs = ev.run(sp.node.body, {sp.params[1]: val, sp.params[2]: None, sp.params[3]: None})
+        except AnalysisError as e:
+            raise AnalysisError(f"set_patterns: {e}")
+        for e2, o in outs:
+            taken = e2.get("__taken", [])
+            got_defaults = "<defaults>" in [t for t in taken if isinstance(t, str)]
+            got_existing = any(t is val for t in taken) if val is not None and not isinstance(val, list) else any(isinstance(t, list) and t == [] for t in taken) if isinstance(val, list) else False
+            if any(t is UNKNOWN for t in taken):
+                raise AnalysisError("set_patterns: cannot tell which base list is appended")
+            if got_defaults != want_defaults:
+                okd, whyd = False, f"with {desc} as the existing patterns the defaults are {'NOT ' if want_defaults else ''}applied"
+            if not want_defaults and not got_existing:
+                okd, whyd = False, f"with {desc} as the existing patterns they are not carried over"
+    r4.check(okd, sp, sp.node, f"set_patterns: {whyd}: a generation without recorded patterns (or with an empty list) must fall back to the defaults (.DS_Store, the ascmhl folder), otherwise those are hashed, recorded and reported", construct="base list of set_patterns (existing or defaults)")
+
     # mutation sites of the pattern list
     for mq, m in spec.methods.items():
         for n in walk_no_nested(m.node):
@@ -410,6 +462,7 @@ def run(report, p):
 
     # ---- rules shared with other properties (same mechanism, same rule, reported under every property it can break)
     include_rules(report, p, 'c02', ['R2.1'], 'ignored names are dropped (and only those) inside the traversal')
+    include_rules(report, p, 'c03', ['R3.10'], 'the latest generation and its spec are looked up with presence tests; a class that gains __len__ turns them into emptiness tests and recorded patterns are dropped')
     include_rules(report, p, 'c13', ['R13.2'], 'patterns are matched against the path relative to the sealed root (not to the working directory or a sub-folder), in the traversal and in the missing-file filter alike')
     report.not_decided += ["pathspec matching semantics for concrete patterns", "that ignored entries are absent from concrete record sets / directory hashes at run time"]
 
